@@ -10,4 +10,6 @@ E_Keys   == {<<98>>, <<98, 95, 98>>, <<50, 95, 97>>}       \* "b" "b_b" "2_a"
 E_KeysX  == {<<98>>, <<98, 95, 98>>}
 E_Vals   == {<<118>>, <<119>>}
 E_Vals1  == {<<118>>}
+E_Names2 == {<<97>>, <<98>>}
+E_Keys1  == {<<98, 95, 98>>}
 =============================================================================
